@@ -2,7 +2,8 @@
 (* Judge for C03 records:                                                     *)
 (*  kind "hash":  data, chunks (list of chunk lengths fed to write()), token  *)
 (*  kind "pk":    markers, pkidx (marker index of each key component, in key  *)
-(*                order), values (bytes per marker), encoded, token, cdc      *)
+(*                order), values (bytes per marker), encoded, token, cdc,     *)
+(*                token_cached (token through the CachingSession handle)      *)
 EXTENDS Murmur3, Json, IOUtils, TLC
 Rec == ndJsonDeserialize(IOEnv.TRACE)
 VARIABLE l
@@ -14,6 +15,7 @@ Good(c) ==
            enc == EncodePk(comps) IN
        /\ c.encoded = enc
        /\ c.token = (IF c.cdc = 1 THEN CdcToken(enc) ELSE Token(enc))
+       /\ c.token_cached = c.token          \* the handle a CachingSession cache hit hands out computes the same token
   ELSE FALSE
 TraceNext == l <= Len(Rec) /\ Good(Rec[l]) /\ l' = l + 1
 TraceSpec == TraceInit /\ [][TraceNext]_l
